@@ -694,13 +694,52 @@ class C11(core.Check):
         cases: List[dict] = []
         if tier == "quick":
             plan = {k: 4 for k in kinds}
-            plan.update(ExtrudedShape=14, RevolvedShape=8, LoftedShape=8, ExtrudedStack=8, TransformedStack=6, RevolvedStack=5, Chain=26, NJoint=8, ExtrudedRing=6, RevolvedRing=5)
+            plan.update(ExtrudedShape=4, RevolvedShape=8, LoftedShape=8, ExtrudedStack=8, TransformedStack=6, RevolvedStack=5, Chain=14, NJoint=3, ExtrudedRing=6, RevolvedRing=5)
         else:
             plan = {k: 40 for k in kinds}
             plan.update(ExtrudedShape=150, RevolvedShape=80, LoftedShape=80, ExtrudedStack=80, TransformedStack=60, RevolvedStack=50, Chain=300, NJoint=60)
         for k in kinds:
             for _ in range(plan[k]):
                 cases.append(gen_case(rng, k))
+        # systematic part (every run): every sketch class extruded, every branch count, every chaining
+        # constructor from either face of a cylinder resp. of a ring
+        reps = 1 if tier == "quick" else 2
+        for _ in range(reps):
+            for sk in SKETCHES:
+                c = gen_case(rng, "ExtrudedShape")
+                keep = {x: c["p"][x] for x in c["p"] if x in ("amount", "vec")}
+                c["p"] = gen_sketch(rng, sk)
+                c["p"].update(keep)
+                cases.append(c)
+            for k in (2, 3, 4, 5, 6, 7):
+                c = gen_case(rng, "NJoint")
+                c["p"]["k"] = k
+                cases.append(c)
+            for base, op, start in [
+                ("Cylinder", "Cylinder.chain", 0), ("Cylinder", "Cylinder.chain", 1), ("Cylinder", "Frustum.chain", 0),
+                ("Cylinder", "Frustum.chain", 1), ("Cylinder", "Elbow.chain", 0), ("Cylinder", "Elbow.chain", 1),
+                ("Cylinder", "Hemisphere.chain", 0), ("Cylinder", "Hemisphere.chain", 1), ("Cylinder", "ExtrudedRing.expand", 0),
+                ("ExtrudedRing", "ExtrudedRing.chain", 0), ("ExtrudedRing", "ExtrudedRing.chain", 1),
+                ("ExtrudedRing", "ExtrudedRing.expand", 0), ("ExtrudedRing", "ExtrudedRing.contract", 0),
+                ("ExtrudedRing", "Cylinder.fill", 0),
+            ]:  # fmt: skip
+                c = gen_case(rng, "Chain")
+                bp = gen_round(rng, base)
+                if op == "Cylinder.fill":
+                    bp["n"] = 8
+                link: Dict[str, Any] = {"op": op, "src": 0, "start": start}
+                if op in ("Cylinder.chain", "ExtrudedRing.chain"):
+                    link["L"] = rq(rng, 0.4, 2)
+                elif op == "Frustum.chain":
+                    link.update(L=rq(rng, 0.4, 2), R2=rq(rng, 0.3, 1.5))
+                elif op == "Elbow.chain":
+                    link.update(sweep=rq(rng, 0.25, 1.4), d=rq(rng, 0.6, 2.5), R2=rq(rng, 0.3, 1.2))
+                elif op == "ExtrudedRing.expand":
+                    link.update(T=rq(rng, 0.2, 1))
+                elif op == "ExtrudedRing.contract":
+                    link.update(f=rng.choice(["1/4", "1/2", "3/4"]))
+                c["p"] = {"base": base, "bp": bp, "links": [link]}
+                cases.append(c)
         if tier == "thorough":
             # every sketch class in every lofted / stacked form at least twice
             for sk in SKETCHES:
@@ -1169,7 +1208,9 @@ def oracle(case: dict, impl: dict) -> List[dict]:
             if v1 in rim and v2 in rim:
                 q = np.array([float(core.parse_rat(x)) for x in tp]) - c["c"]
                 hq = float(q @ c["n"])
-                if abs(hq) < tol and abs(np.linalg.norm(q - hq * c["n"]) - c["r"]) < tol:
+                mid = (fpts[v1] + fpts[v2]) / 2 - c["c"]
+                if abs(hq) < tol and abs(np.linalg.norm(q - hq * c["n"]) - c["r"]) < tol and float(q @ mid) > 0:
+                    # on the circle, and on the short way round (every arc of these shapes spans less than 180 degrees)
                     na += 1
                 else:
                     viol(f"{cls}:arc-off-circle", f"arc {v1}-{v2} of circle {ci} passes through a point off the circle", [hq, float(np.linalg.norm(q))], c["r"])
